@@ -535,6 +535,7 @@ type FuncSpec struct {
 	Asserts         []*Clause
 	CallAsserts     []*CallAssert       // before / after <callee>[#n]: assertions anchored at a call site
 	Only            []string            // partial contract: only obligations whose name contains one of these are claimed
+	UnchangedUnless *Clause             // conditional frame: unless this two-state condition holds, the call leaves every state key as it was
 	ClauseProps     map[string][]string // props_of <clause name> <props...>: the obligation of that clause carries these properties instead of the function's
 	NoPanicOff      bool
 	Implementations bool // contract on an interface method, checked against every implementation
@@ -618,7 +619,7 @@ var clauseKW = map[string]bool{
 	"modifies": true, "loop": true, "invariant": true, "decreases": true, "safe": true,
 	"nowrap": true, "wrapok": true, "inline": true, "trusted": true, "uses": true, "split": true, "props": true,
 	"axiom": true, "induction": true, "guarded_by": true, "pure": true, "assert": true, "timeout": true,
-	"trigger": true, "abstract": true, "opaque": true, "reveal": true, "implementations": true, "body_ensures": true, "body_returns": true, "lock_property": true, "init_only": true, "write_guarded_by": true, "before": true, "after": true, "only": true, "props_of": true,
+	"trigger": true, "abstract": true, "opaque": true, "reveal": true, "implementations": true, "body_ensures": true, "body_returns": true, "lock_property": true, "init_only": true, "write_guarded_by": true, "before": true, "after": true, "only": true, "props_of": true, "unchanged_unless": true,
 }
 
 func splitName(rest string) (name, body string) {
@@ -889,6 +890,11 @@ func (sf *SpecFile) Load(path, pkg string) (err error) {
 				return fmt.Errorf("%s:%d: assert outside func", path, rc.line)
 			}
 			cur.Asserts = append(cur.Asserts, mk())
+		case "unchanged_unless":
+			if cur == nil {
+				return fmt.Errorf("%s:%d: unchanged_unless outside func", path, rc.line)
+			}
+			cur.UnchangedUnless = mk()
 		case "props_of":
 			if cur == nil {
 				return fmt.Errorf("%s:%d: props_of outside func", path, rc.line)
